@@ -52,6 +52,11 @@ func c04SFOVariants() map[string][]byte {
 	for _, id := range []string{"", "A", "AB", "ABC", "ABCD", "ABCDE", "BLES0123456789AB", strings.Repeat("Z", 60)} {
 		v["titleid-len-"+fmt.Sprint(len(id))] = sfoBytes([][2]string{{"TITLE_ID", id}})
 	}
+	// lengths in characters and in bytes differ: few characters, many bytes (and the other way round does not exist)
+	for name, id := range map[string]string{"cyr16": strings.Repeat("Ж", 16), "kana11": strings.Repeat("ゲ", 11), "mixed24": "NPEB" + strings.Repeat("é", 20),
+		"cyr9": "БЛЕС00001", "cyr15a": strings.Repeat("Ж", 15) + "AB", "invalid-utf8-31": strings.Repeat("\xff", 31), "emoji8": strings.Repeat("😀", 8)} {
+		v["titleid-"+name] = sfoBytes([][2]string{{"TITLE_ID", id}})
+	}
 	v["no-titleid"] = sfoBytes([][2]string{{"TITLE", "x"}})
 	v["key-without-nul"] = bytes.TrimRight(good, "\x00")
 	return v
